@@ -1,6 +1,6 @@
 CONSTANTS
   InitPrios <- P12
-  SetPrios = {1, 3, 7}
+  SetPrios = {1, 7}
   Alphabet <- AlphaPertCond
   K = 1
   CapBase = 0
